@@ -495,15 +495,20 @@ def histories(case):
     trans = 0
 
     def same_group(a, b):
-        # depth-3 histories are restricted to colliding groups: same grid family member and operator
-        return a[0] == b[0] and a[1:3] == b[1:3] if a[0] in ("mkop", "field") else a[0] == b[0]
+        # depth-3 histories are restricted to colliding groups: same grid family member and operator,
+        # resp. the same family of equations (dv0/dd0/.., ch_*, sh_*, p_*) for the PDE requests
+        if a[0] in ("mkop", "field"):
+            return a[0] == b[0] and a[1:3] == b[1:3]
+        if a[0] in ("rate", "rhs", "solve") and b[0] in ("rate", "rhs", "solve"):
+            return a[1].split("_")[0][:2] == b[1].split("_")[0][:2]
+        return a[0] == b[0]
 
     tails = [[]]
     for d in range(1, depth):
         new = []
         for t in tails:
             for r in reqs:
-                if d >= 2 and family in ("line", "radial") and not (same_group(first, r) and same_group(t[-1], r)):
+                if d >= 2 and family in ("line", "radial", "pde") and not (same_group(first, r) and same_group(t[-1], r)):
                     continue
                 new.append(t + [r])
         tails = new
